@@ -17,6 +17,9 @@ request:  `<mode> <arg> <tok> <tok> ...`
   `;<kind>|<name>|<dims>|<unit>|<observations>` per written value (kind `C`/`G`/`H`; dims `k=v,…` or `-`; unit id or
   `-` for `Unit::None`; observations `u<n>` / `f<bits hex>` / `r<value>x<count>x<total bits hex>` joined by `,`).
 * mode `repscript`, args `<emit_zero> <rep>`: the tokens (no `R`) run `rep` times, then one readout; reply as `script`.
+* mode `window`, arg = `emit_zero_counters`: tokens are atomic events as in `trace`; a leading `+` marks a step of the
+  readout's own walk, the others belong to other threads; reply: the entry of `readoutInterleaved` (unit map read
+  after the last event).
 * mode `idx`, arg `-`: tokens are decimal `u32` values; reply per value `<index>:<lower>:<upper>:<bucket value>`.
 * mode `trace`, arg = `emit_zero_counters`: tokens are atomic events (`inc:<key>:<n>`, `swapC:<key>`, `gset:<key>:<hex>`,
   `gload:<key>`, `hrec:<key>:<u32>`, `hswap:<key>:<i>`, `rc/rg/rh:<key>`, `d:<name>:<unit>`); reply: the observations
@@ -128,6 +131,12 @@ def handle (line : String) : String :=
       let r := runScript (State.init ez) ((List.replicate rep once).flatten ++ [.readout])
       " # ".intercalate (r.2.map entryStr)
     | _, _, _ => "bad-op"
+  | "window" :: ez :: toks =>
+    let parseT (t : String) : Option (Bool × Ev) :=
+      if t.startsWith "+" then (parseEv (t.drop 1).toString).map (fun e => (true, e)) else (parseEv t).map (fun e => (false, e))
+    match parseBool ez, toks.mapM parseT with
+    | some ez, some tagged => entryStr (readoutInterleaved (State.init ez) tagged)
+    | _, _ => "bad-op"
   | "idx" :: "-" :: toks =>
     match toks.mapM (·.toNat?) with
     | some vs => if vs.isEmpty then "bad-op" else " ".intercalate (vs.map idxStr)
